@@ -1,6 +1,7 @@
 import Driver.Proto
 import Gql.Exec.Overlap
 import Gql.Exec.SpecMerge
+import Gql.Exec.SpecMergeIds
 /-
 Line protocol for C14.  One case per line, prefix notation, space separated:
 
@@ -13,7 +14,8 @@ Line protocol for C14.  One case per line, prefix notation, space separated:
           | "i" (tc|"-") selset | "s" name
   args   := n (name value)*           value := "v:"text | "[" n value* | "{" n (name value)*
 
-Output: `I <impl conflicts | fuel> S <spec: 0|1|fuel> W <argsWF 0|1> B <fuel bound>`, conflicts as
+Output: `I <impl conflicts | fuel> S <spec: 0|1|fuel> W <argsWF 0|1> B <fuel bound> U <field ids
+pairwise different 0|1> T <spec with `__typename` hidden: 0|1|fuel>`, conflicts as
 `name,kind,id.id…,id.id…` joined by `;` (`-` when there are none).
 -/
 open Gql.Exec Driver
@@ -155,7 +157,10 @@ def step (line : String) : String :=
       let impl := Overlap.implConflicts s d
       let spec := Spec.specConflictB s d
       let wf := if d.argsWF then 1 else 0
-      s!"I {showImpl impl} S {showSpec spec} W {wf} B {Overlap.fuelBound d}"
+      let u := if decide d.FieldIdsNodup then 1 else 0
+      -- "?" is no GraphQL name: fresh for every schema and document
+      let blind := Spec.specConflictB s (d.hideMeta "?")
+      s!"I {showImpl impl} S {showSpec spec} W {wf} B {Overlap.fuelBound d} U {u} T {showSpec blind}"
     | _ => "bad-case"
   | "fuelcase" :: f :: rest =>
     -- the same, with an explicit (smaller) recursion budget for the implementation model
